@@ -172,11 +172,13 @@ def step (st : St) (line : String) : St × String :=
       -- a vanished stream takes the link of its connections down
       let streams := t.streams.map (fun (pk, s) => (pk, { s with clients := s.clients.map (fun (k, c) =>
         if k.1 == a then (k, { c with linkUp := up == "1" }) else (k, c)) }))
-      ({ st with eps := setS ep (.srv en { t with links, streams } addr lv) st.eps }, "ok")
+      -- `PRUDPSocketTransport.handle`: a stream client gets a decoder (reassembly buffer) of its own, dropped when it goes away
+      let liteBufs := t.liteBufs.filter (·.1 != a)
+      ({ st with eps := setS ep (.srv en { t with links, streams, liteBufs } addr lv) st.eps }, "ok")
     | some (.cli en ct loc rem), some _ =>
       -- the client transport's one stream: gone / there (every write of its connections raises a StreamError when it is gone)
       let conns := ct.conns.map (fun (k, c) => (k, { c with linkUp := up == "1" }))
-      ({ st with eps := setS ep (.cli en { ct with conns } loc rem) st.eps }, "ok")
+      ({ st with eps := setS ep (.cli en { ct with conns, linkUp := up == "1" } loc rem) st.eps }, "ok")
     | _, _ => (st, "bad-op")
   | "connect" :: ep :: t :: vport :: type :: unrel :: check :: sid :: creds =>
     match lookupS ep st.eps, t.toNat?, vport.toNat?, type.toNat?, unrel.toNat?, check.toNat?, sid.toNat? with
@@ -195,7 +197,7 @@ def step (st : St) (line : String) : St × String :=
         | some cr =>
           let nports := if env.s.transport = TRANSPORT_UDP then 16 else 32
           let lport := ((List.range nports).reverse.find? (fun i => (connLookup (portKey i ty) ct.conns).isNone)).getD 0
-          let c := Conn.new env (some env.s.version) ur ck sd loc lport ty rem vp ty
+          let c := { Conn.new env (some env.s.version) ur ck sd loc lport ty rem vp ty with linkUp := ct.linkUp }
           let r := c.handshake env now cr
           let ct' := { ct with conns := connSet (portKey lport ty) r.c ct.conns }
           ({ st with eps := setS ep (.cli en ct' loc rem) st.eps }, joinOuts (r.outs.map (showOut "c")) r.err)
